@@ -18,19 +18,25 @@ type dgram struct {
 }
 
 type memPC struct {
-	mu       sync.Mutex
-	cond     *sync.Cond
-	in       []dgram
-	out      []dgram
-	clock    vclock    // deadlines live on this virtual clock (see stream_test.go): only pause() lets time pass
-	rdl, wdl vdeadline // read / write deadline
-	closed   bool
-	waiting  bool
-	reads    int
-	wdlSets    []string // every SetWriteDeadline call
-	wdlExpired []string // every WriteTo that failed because the write deadline had passed
-	noAddr     int      // WriteTo calls without a destination address (refused, as a socket does)
+	mu           sync.Mutex
+	cond         *sync.Cond
+	in           []dgram
+	out          []dgram
+	clock        vclock    // deadlines live on this virtual clock (see stream_test.go): only pause() lets time pass
+	rdl, wdl     vdeadline // read / write deadline
+	closed       bool
+	waiting      bool
+	holdTimedOut int  // holdReport calls that were ended by their bound
+	heldOpen     bool // restart cases: the serve loop is inside the report the harness holds open (restart_test.go)
+	reads        int
+	wdlSets      []string // every SetWriteDeadline call
+	wdlExpired   []string // every WriteTo that failed because the write deadline had passed
+	noAddr       int      // WriteTo calls without a destination address (refused, as a socket does)
 }
+
+// bufferMu orders the harness's own accesses to receive buffers of the in-memory datagram socket:
+// ReadFrom filling one, MsgInvalidFunc (observer.configure) copying and comparing one.
+var bufferMu sync.Mutex
 
 func newMemPC() *memPC { p := &memPC{}; p.cond = sync.NewCond(&p.mu); return p }
 
@@ -49,7 +55,13 @@ func (p *memPC) ReadFrom(b []byte) (int, net.Addr, error) {
 			p.in = p.in[1:]
 			p.reads++
 			p.cond.Broadcast()
-			return copy(b, k.b), k.addr, nil
+			// the observer reads reported octets under the same lock: a buffer that is filled again while
+			// a callback still looks at it is to be reported by the oracle as what it is, in both
+			// binaries, and not as a memory race of the harness's own two accesses
+			bufferMu.Lock()
+			n := copy(b, k.b)
+			bufferMu.Unlock()
+			return n, k.addr, nil
 		}
 		p.waiting = true
 		p.cond.Broadcast()
@@ -196,6 +208,9 @@ func (p *memPC) holdReport(short bool) bool {
 	defer p.mu.Unlock()
 	for p.reads < r0+2 && !(len(p.in) == 0 && p.waiting) && !p.closed && !p.clock.expired(p.rdl) && !timedOut {
 		p.cond.Wait()
+	}
+	if timedOut {
+		p.holdTimedOut++
 	}
 	return p.reads > r0
 }
